@@ -74,6 +74,12 @@ def stepLine (st : JState) (line : String) : JState × String :=
              else if !((r.splitOn " ").contains "leak=0") then
               ({ st with specDead := true }, some ("components decoded from malformed bytes were leaked or dropped twice: " ++ r))
              else (st, none))
+          else if r.trimAscii.toString == "panic" && (lhs.startsWith "reserve_bulk" || lhs.startsWith "reserve_entit") then
+            -- "too many entities": the documented refusal at the end of the `u32` id space, legitimate exactly
+            -- where the model (the checked calls) refuses too; the history ends here
+            if !st.diverged && (match WorldJudge.stepLine st.worlds lhs with | .ok (_, a) => a == "panic" | .error _ => false) then
+              ({ st with specDead := true }, none)
+            else ({ st with specDead := true }, some "operation panicked inside hecs")
           else if r.trimAscii.toString == "panic" && WorldJudge.outOfContract lhs then
             -- rejected out-of-contract call: nothing is specified about the state afterwards — except for
             -- the array accessors, which refuse a repeated handle before touching anything
